@@ -147,7 +147,30 @@ func (g *Gen) CallProgram() *Chunk {
 		}
 		usesDots := false
 		if va {
-			switch g.R.Intn(4) {
+			switch g.R.Intn(6) {
+			case 4, 5:
+				// ... (parenthesised or not, alone or last in a list) assigned to
+				// locals that already exist, with other locals living above them
+				usesDots = true
+				ls := []string{g.fresh("l"), g.fresh("l"), g.fresh("l"), g.fresh("l")}
+				body.Stmts = append(body.Stmts, Local(ls, Str("L1"), Str("L2"), Str("L3"), Str("L4")))
+				var dots Expr = &EVararg{}
+				if g.R.Intn(3) != 0 {
+					dots = &EParen{X: &EVararg{}}
+				}
+				ti := g.R.Intn(3)
+				switch g.R.Intn(4) {
+				case 0:
+					body.Stmts = append(body.Stmts, Assign1(N(ls[ti]), dots))
+				case 1:
+					body.Stmts = append(body.Stmts, &SAssign{LHS: []Expr{N(ls[ti]), N(ls[ti+1])}, RHS: []Expr{Num(7), dots}})
+				case 2:
+					body.Stmts = append(body.Stmts, &SAssign{LHS: []Expr{N(ls[ti+1]), N(ls[ti])}, RHS: []Expr{dots}})
+				default:
+					body.Stmts = append(body.Stmts, Assign1(N(ls[ti]), CallN("select", Num(1), dots)), Assign1(N(ls[ti]), Bin("or", dots, Str("none"))))
+				}
+				ev = append(ev, N(ls[0]), N(ls[1]), N(ls[2]), N(ls[3]))
+				g.cover("callee:dots-into-existing-locals")
 			case 0:
 				ev = append(ev, CallN("select", Str("#"), &EVararg{}), &EVararg{})
 				usesDots = true
